@@ -16,6 +16,8 @@ import (
 	"io/ioutil"
 	"math/rand"
 	"strings"
+	"sync"
+	"time"
 
 	"github.com/gauss-project/aurorafs/pkg/auth"
 	"github.com/gauss-project/aurorafs/pkg/logging"
@@ -26,8 +28,10 @@ import (
 var logger = logging.New(ioutil.Discard, 0)
 
 const (
-	posDuration = 3600  // seconds: unexpired for the whole run
-	negDuration = -3600 // a token born expired
+	posDuration   = 3600  // seconds: unexpired for the whole run
+	negDuration   = -3600 // a token born expired
+	shortDuration = 2     // a real expiry: alive when issued, expired after a "wait"
+	margin        = 300 * time.Millisecond
 )
 
 func dur(s string) (int, error) {
@@ -36,6 +40,8 @@ func dur(s string) (int, error) {
 		return posDuration, nil
 	case "neg":
 		return negDuration, nil
+	case "short":
+		return shortDuration, nil
 	}
 	return 0, fmt.Errorf("unknown duration %q", s)
 }
@@ -64,6 +70,25 @@ type slot struct {
 	set bool
 	tok string
 	cls string // how the string was damaged since it was issued ("none", a damage or junk class)
+	// real-time tokens: the issuing call happened between t0 and t1, the token lives for ttl
+	short  bool
+	t0, t1 time.Time
+}
+
+// fresh tells on which side of a short expiry a call that ran from `before` to `after` fell, with a safety
+// margin; "edge" = too close to tell (the judge does not judge such a call).  "" for tokens without a real expiry.
+func (s *slot) fresh(before, after time.Time) string {
+	if !s.short {
+		return ""
+	}
+	ttl := shortDuration * time.Second
+	switch {
+	case after.Before(s.t0.Add(ttl - margin)):
+		return "alive"
+	case before.After(s.t1.Add(ttl + margin)):
+		return "expired"
+	}
+	return "edge"
 }
 
 // probe runs one Enforce and reports the raw result.
@@ -140,7 +165,16 @@ func junk(rng *rand.Rand, cls string) (string, error) {
 	return "", fmt.Errorf("unknown junk class %q", cls)
 }
 
-func run(sc kit.Scenario, out *kit.Out) error {
+// recorder collects the events of one scenario (real-time scenarios run concurrently and are logged afterwards).
+type recorder struct {
+	begin kit.Ev
+	evs   []kit.Ev
+}
+
+func (r *recorder) Emit(ev kit.Ev) { r.evs = append(r.evs, ev) }
+
+func run(sc kit.Scenario, out *recorder) error {
+	realtime := kit.Str(sc.Par, "family") == "realtime"
 	nodes := map[int]*auth.Authenticator{}
 	for i, key := range map[int]string{1: "verif-node-one-encryption-key", 2: "verif-node-two-encryption-key"} {
 		a, err := auth.New(key, "unused-password-hash", logger)
@@ -152,7 +186,9 @@ func run(sc kit.Scenario, out *kit.Out) error {
 	self := nodes[1]
 	rng := kit.Rng(int64(3500 + sc.Scn))
 	slots := map[int]*slot{1: {}, 2: {}}
-	out.Begin(sc.Scn, kit.Ev{"st": project(self, slots)})
+	out.begin = kit.Ev{"st": project(self, slots)}
+	// real-time histories are observed by their explicit Enforce operations only: the probes would "use" a token
+	probeAll := func() interface{} { return project(self, slots) }
 
 	for _, op := range sc.Ops {
 		name := kit.Str(op, "op")
@@ -170,10 +206,11 @@ func run(sc kit.Scenario, out *kit.Out) error {
 			}
 			var tok string
 			var e error
+			t0 := time.Now()
 			p, pmsg := kit.Guard(func() { tok, e = node.GenerateKey(role, d) })
 			ok := !p && e == nil
 			if ok {
-				slots[s] = &slot{set: true, tok: tok, cls: "none"}
+				slots[s] = &slot{set: true, tok: tok, cls: "none", short: d == shortDuration, t0: t0, t1: time.Now()}
 			}
 			ev["slot"], ev["key"], ev["role"], ev["dur"] = s, key, role, kit.Str(op, "dur")
 			ev["ok"], ev["err"], ev["panicked"], ev["pmsg"] = ok, errs(e), p, pmsg
@@ -191,10 +228,16 @@ func run(sc kit.Scenario, out *kit.Out) error {
 			var tok string
 			var e error
 			cls := slots[src].cls
+			srcSlot := slots[src]
+			t0 := time.Now()
 			p, pmsg := kit.Guard(func() { tok, e = self.RefreshKey(slots[src].tok, d) })
+			t1 := time.Now()
 			ok := !p && e == nil
 			if ok {
-				slots[dst] = &slot{set: true, tok: tok, cls: "none"}
+				slots[dst] = &slot{set: true, tok: tok, cls: "none", short: d == shortDuration, t0: t0, t1: t1}
+			}
+			if f := srcSlot.fresh(t0, t1); f != "" {
+				ev["fresh"] = f
 			}
 			ev["src"], ev["dst"], ev["dur"], ev["cls"] = src, dst, kit.Str(op, "dur"), cls
 			ev["ok"], ev["expired"], ev["err"], ev["panicked"], ev["pmsg"] = ok, errors.Is(e, auth.ErrTokenExpired), errs(e), p, pmsg
@@ -209,9 +252,24 @@ func run(sc kit.Scenario, out *kit.Out) error {
 			if err != nil {
 				return err
 			}
-			slots[s] = &slot{set: true, tok: t, cls: cls}
+			old := slots[s]
+			slots[s] = &slot{set: true, tok: t, cls: cls, short: old.short, t0: old.t0, t1: old.t1}
 			ev["slot"], ev["cls"] = s, cls
 			ev["st"] = project(self, slots)
+
+		case "wait":
+			// let the clock pass every short expiry (plus the margin)
+			var until time.Time
+			for _, sl := range slots {
+				if sl != nil && sl.set && sl.short {
+					if t := sl.t1.Add(shortDuration*time.Second + margin + 100*time.Millisecond); t.After(until) {
+						until = t
+					}
+				}
+			}
+			if d := time.Until(until); d > 0 {
+				time.Sleep(d)
+			}
 
 		case "junk":
 			s, cls := kit.Int(op, "slot"), kit.Str(op, "cls")
@@ -235,23 +293,52 @@ func run(sc kit.Scenario, out *kit.Out) error {
 			method := kit.Str(op, "method")
 			var allowed bool
 			var e error
+			t0 := time.Now()
 			p, pmsg := kit.Guard(func() { allowed, e = self.Enforce(slots[s].tok, path, method) })
+			if f := slots[s].fresh(t0, time.Now()); f != "" {
+				ev["fresh"] = f
+			}
 			ev["slot"], ev["path"], ev["method"], ev["cls"] = s, segs, method, slots[s].cls
 			ev["allowed"], ev["expired"], ev["err"], ev["panicked"], ev["pmsg"] = allowed && !p, errors.Is(e, auth.ErrTokenExpired), errs(e), p, pmsg
 
 		default:
 			return fmt.Errorf("unknown op %q", name)
 		}
+		if realtime {
+			delete(ev, "st")
+		}
 		out.Emit(ev)
 	}
+	_ = probeAll
 	return nil
 }
 
 func main() {
 	kit.Main(func(scs []kit.Scenario, out *kit.Out) error {
-		for _, sc := range scs {
-			if err := run(sc, out); err != nil {
-				return fmt.Errorf("scenario %d: %w", sc.Scn, err)
+		recs := make([]*recorder, len(scs))
+		errsC := make([]error, len(scs))
+		var wg sync.WaitGroup
+		for i, sc := range scs {
+			recs[i] = &recorder{}
+			if kit.Str(sc.Par, "family") == "realtime" {
+				// real-time histories sleep: they run concurrently (own authenticators each)
+				wg.Add(1)
+				go func(i int, sc kit.Scenario) {
+					defer wg.Done()
+					errsC[i] = run(sc, recs[i])
+				}(i, sc)
+				continue
+			}
+			errsC[i] = run(sc, recs[i])
+		}
+		wg.Wait()
+		for i, sc := range scs {
+			if errsC[i] != nil {
+				return fmt.Errorf("scenario %d: %w", sc.Scn, errsC[i])
+			}
+			out.Begin(sc.Scn, recs[i].begin)
+			for _, ev := range recs[i].evs {
+				out.Emit(ev)
 			}
 		}
 		return nil
